@@ -493,8 +493,6 @@ VCase gen_grid(int maxn, bool nondegenerate_only) {
     for (int k = 0; k < 3; ++k)
       s[k] = L * (bm == 2 ? vr::logu(0.05, 1.) : vr::dyadic(1. / 16, 1.0625, 4));
   int cls = vr::weighted({4, 4, 3, 3, 3, 3});
-  if (getenv("C15_CLS"))
-    cls = atoi(getenv("C15_CLS")); // debugging aid only
   if (nondegenerate_only && (cls == 2 || cls == 4))
     cls = vr::coin() ? 0 : 3;
   std::vector<std::vector<double>> p; // unit coordinates in (0,1)
@@ -1085,7 +1083,7 @@ double min_wall_distance(const Problem &P) {
 // planes, nearly cocircular points) the result is arbitrary.  Matcher: the
 // input contains such a configuration.
 bool sliver_prone(const Problem &P) {
-  if (min_wall_distance(P) < 1e-3)
+  if (min_wall_distance(P) < 1e-3 || min_separation(P) < 1e-5 * P.Lbox)
     return true;
   const size_t n = P.p.size();
   // four generators sharing a coordinate (axis-aligned plane)
@@ -1138,16 +1136,39 @@ bool old_tolerance_prone(const Problem &P) {
   return false;
 }
 
+// four generators in one axis-aligned plane (regular lattices and the like)
+bool has_lattice_plane(const Problem &P) {
+  for (int k = 0; k < 3; ++k) {
+    std::vector<double> v;
+    for (auto &x : P.pos)
+      v.push_back((x[k] - P.box.get_anchor()[k]) / P.box.get_sides()[k]);
+    std::sort(v.begin(), v.end());
+    for (size_t i = 0; i + 3 < v.size(); ++i)
+      if (v[i + 3] - v[i] < 1e-9)
+        return true;
+  }
+  return false;
+}
+
 void grid_failure(const char *name, const std::string &err, const Problem &P,
                   VResult &r) {
+  if (err == "timeout" && has_lattice_plane(P) && min_wall_distance(P) >= 1e-3 &&
+      min_separation(P) >= 1e-5 * P.Lbox) {
+    r.fail(fmt("%s: construction of an (almost) exactly degenerate lattice did "
+               "not finish within %g s (normal: < 0.5 s)",
+               name, BUDGET_S));
+    r.known = "newvoronoi_hang_degenerate_lattice";
+    return;
+  }
   if (err == "timeout") {
     r.fail(fmt("%s: construction did not finish within %g s (normal: < 0.5 s)",
                name, BUDGET_S));
-    if (min_wall_distance(P) < 1e-3)
+    if (min_wall_distance(P) < 1e-3 || min_separation(P) < 1e-5 * P.Lbox)
       r.known = "newvoronoi_hang_generator_near_wall";
   } else {
     r.fail(fmt("%s: construction failed on a valid input: %s", name, err.c_str()));
-    if (err.compare(0, 6, "signal") == 0 && min_wall_distance(P) < 1e-3)
+    if (err.compare(0, 6, "signal") == 0 &&
+        (min_wall_distance(P) < 1e-3 || min_separation(P) < 1e-5 * P.Lbox))
       r.known = "newvoronoi_hang_generator_near_wall"; // same class: hang or crash
   }
 }
@@ -1239,7 +1260,7 @@ VResult o_old(const VCase &c) {
     r.nontrivial = false;
     return r;
   }
-  g_delta = DELTA + 10. * 2. * OLDVORONOI_TOLERANCE / sep;
+  g_delta = DELTA + 10. * 2. * 2.e-10 / sep; // 2e-10: the documented tolerance, deliberately not the macro
   GridOut O;
   const std::string err =
       run_isolated<OldVoronoiGrid>(P.pos, P.box, P.threads, P.queries, false, O);
